@@ -8,12 +8,14 @@ EXTENDS Faults
 DT(n) == [tag |-> "dT", op |-> "Publish", params |-> [topic |-> "t1"], n |-> n]   \* Publish{topic=t1}
 DA(n) == [tag |-> "dA", op |-> "Publish", params |-> <<>>, n |-> n]               \* any Publish (overlaps dT)
 DO(n) == [tag |-> "dO", op |-> "Pull", params |-> [topic |-> "t1"], n |-> n]      \* other operation, same parameter
+DE(n) == [tag |-> "dE", op |-> "Publish", params |-> [topic |-> ""], n |-> n]     \* Publish{topic=""}: an EMPTY value is a value
 \* call kinds
 KExact == [op |-> "Publish", params |-> [topic |-> "t1"]]                  \* matches dT and dA
 KSuper == [op |-> "Publish", params |-> [topic |-> "t1", key |-> "k"]]     \* superset: matches dT and dA
 KOtherV == [op |-> "Publish", params |-> [topic |-> "t2"]]                 \* other value: matches dA only
 KNoParam == [op |-> "Publish", params |-> <<>>]                            \* no parameters: matches dA only
 KOtherOp == [op |-> "Pull", params |-> [topic |-> "t1"]]                   \* other operation: matches dO only
+KEmptyV == [op |-> "Publish", params |-> [topic |-> ""]]                    \* the empty value: matches dE and dA
 Kinds == <<KExact, KSuper, KOtherV, KNoParam, KOtherOp>>
 
 mcCallers == 1..3
